@@ -11,14 +11,14 @@ from .run import Check, Section
 
 ALLELES = [0, 0, 0, 1, 1, 2, 253, 254, 255]
 CLASSES = ["Genotypes", "GenotypesVCF", "GenotypesPLINK", "GenotypesAncestry"]
-THR = [(0, 1), (1, 8), (1, 4), (3, 8), (1, 2), (1, 3)]
+THR = [(0, 1), (1, 8), (1, 4), (3, 8), (1, 2), (1, 3), (1, 10), (1, 6), (1, 5), (1, 12), (3, 10)]  # ties with k/(2n) for n up to 6, incl. values that are not exact in binary
 
 
 def gen(rng, tier):
     n = 2500 if tier == "quick" else 60000
     for t in range(n):
         cls = CLASSES[t % 4]
-        ns, nv = rng.randint(1, 4), rng.randint(1, 4)
+        ns, nv = rng.choice([1, 2, 3, 4, 4, 5, 6]), rng.randint(1, 4)
         clean = rng.random() < 0.35  # mostly-valid stream: few offenders
         pool = [0, 0, 1, 1] + ([rng.choice(ALLELES)] if clean else ALLELES)
         if cls == "GenotypesAncestry":
@@ -411,7 +411,7 @@ CHECK = Check(
             describe=describe,
             variants=variants,
             nontrivial=lambda c, o: C.jdump(c) if isinstance(o, dict) and any(("raised" in e) or (op.get("discard") and len(e["state"]["samples"]) * len(e["state"]["vars"]) < len(c["g"]["samples"]) * len(c["g"]["vars"])) for op, e in zip(c["ops"], o.get("trace", []))) else None,
-            rule="seeded random arrays up to 4x4 with allele indices from {0,1,2,253,254,255} (a mostly-valid stream and a dense-offender stream), all phase patterns, sequences of 1-4 checks in any order with discard / raise / warn modes, thresholds {0,1/8,1/4,3/8,1/2,1/3} (ties included), the four classes in rotation (ancestry array in parallel); non-trivial = some step raised or discarded something",
+            rule="seeded random arrays up to 6x4 with allele indices from {0,1,2,253,254,255} (a mostly-valid stream and a dense-offender stream), all phase patterns, sequences of 1-4 checks in any order with discard / raise / warn modes, thresholds {0,1/8,1/4,3/8,1/2,1/3,1/10,1/6,1/5,1/12,3/10} (ties included, also at frequencies that are not exact in binary), the four classes in rotation (ancestry array in parallel); non-trivial = some step raised or discarded something",
         ),
         Section(
             name="default_loaders",
